@@ -679,6 +679,34 @@ func (e *Engine) solveAll(obls []*Obligation, workdir string, timeout int, jobs 
 		}(i, o)
 	}
 	wg.Wait()
+	// second chance against load-induced timeouts: a handful of obligations that no solver decided (no model) are tried
+	// again, a few at a time, with three times the budget, once everything else is finished
+	if !thorough {
+		var again []int
+		for i, o := range obls {
+			if o.Status == "failed" && o.NoModel && o.Expect == "unsat" && o.Kind != "anchor" && o.Kind != "spec-error" && o.Kind != "unsupported" {
+				again = append(again, i)
+			}
+		}
+		if len(again) > 0 && len(again) <= 24 {
+			sem2 := make(chan struct{}, 4)
+			var w2 sync.WaitGroup
+			for _, i := range again {
+				w2.Add(1)
+				go func(i int) {
+					defer w2.Done()
+					sem2 <- struct{}{}
+					defer func() { <-sem2 }()
+					first := obls[i].Detail
+					obls[i].Detail = ""
+					obls[i].NoModel = false
+					e.solveOne(i, obls[i], workdir, 3*timeout, false)
+					obls[i].Detail = "retry after: " + first + " || " + obls[i].Detail
+				}(i)
+			}
+			w2.Wait()
+		}
+	}
 	// vacuity guards: a loop head / precondition must be reachable on SOME path; infeasible paths are normal
 	okGroup := map[string]bool{}
 	for _, o := range obls {
